@@ -16,7 +16,7 @@ var _ containers.JSONDeserializer = (*List[int])(nil)
 
 // ToJSON outputs the JSON representation of list's elements.
 func (list *List[T]) ToJSON() ([]byte, error) {
-	return json.Marshal(list.elements)
+	return json.Marshal(append([]T{}, list.elements...))
 }
 
 // FromJSON populates list's elements from the input JSON representation.
